@@ -105,8 +105,19 @@ func (m *Manager) SetBirthday(ns walletdb.ReadWriteBucket,
 	m.mtx.Lock()
 	defer m.mtx.Unlock()
 
-	m.birthday = birthday
-	return putBirthday(ns, birthday)
+	if err := putBirthday(ns, birthday); err != nil {
+		return err
+	}
+
+	// Update memory once the database update has been committed.
+	ns.Tx().OnCommit(func() {
+		m.mtx.Lock()
+		defer m.mtx.Unlock()
+
+		m.birthday = birthday
+	})
+
+	return nil
 }
 
 // BirthdayBlock returns the birthday block, or earliest block a key could have
